@@ -1,8 +1,11 @@
 use std::collections::HashMap;
 use std::fmt::{self, Write};
 use std::mem;
+#[cfg(not(feature = "verif-hooks"))]
 #[cfg(not(target_arch = "wasm32"))]
 use std::time::Instant;
+#[cfg(feature = "verif-hooks")]
+use crate::verif_hooks::Instant;
 
 use console::{measure_text_width, Style};
 #[cfg(feature = "unicode-segmentation")]
